@@ -155,4 +155,4 @@ class Call(Contract):
         raise U("call as a callee", node)
 
 
-CONTRACTS = [PolynomialShapeOnly(), Call()]
+CONTRACTS = [Call()]       # numpoly.polynomial: contracts/polynomial.py
